@@ -191,7 +191,7 @@ Proof.
   apply quality_posix_ok in H as [[H1 H2] [_ H3]]. rewrite resolve_min in H1.
   repeat split; try assumption. lia.
 Qed.
-(* the pinned tree: what the POSIX path does guarantee *)
+(* the pre-fix tree: what the POSIX path does guarantee *)
 Lemma posix_unfixed_partial : forall cf pw zx,
   pwd_wf pw = true -> posix_op_gen false cf pw zx = ROk ->
   c_posix cf = true /\ PW_SFA_MIN <= bytes pw /\ bytes pw <= PW_MAX /\ graphemes pw <= PW_MAX /\
@@ -328,7 +328,7 @@ Qed.
 Lemma statement_fixed : C31_statement true.
 Proof. split; [intros cf pw zx _ H; exact (posix_fixed_ok cf pw zx H) | exact sessions_ok]. Qed.
 
-(* witnesses against the pinned tree *)
+(* witnesses against the pre-fix tree *)
 Definition w_cfg_policy30 : cfg := mkcfg [(Some 30, None); (None, None)] [] [] None true true.
 Definition w_pw_18 : pwd := map (fun c => [c]) [101;105;75;55;111;104;118;105;101;52;65;101;112;104;57;69;105;120].
 Definition w_cfg_default : cfg := mkcfg [(None, None)] [] [] None true true.
